@@ -495,9 +495,22 @@ pub fn run_w1<P: Payload>(ctx: &Ctx, cfg: &W1Cfg, index: u64, cov: &mut Cov, hoo
         2 => rng.below(40),
         _ => rng.below(300),
     };
-    let workload = format!("w1-{}-{}-{:?}-cap{}", if tag == 1 { "small" } else { "large" }, index, persona, cap0);
+    // every 29th small history starts on an arena with a worn-out slot
+    let worn: u32 = if cfg.size == Size::Small && index % 29 == 13 {
+        let base = [124u32, 252, 16_380, 32_758][rng.below(4)];
+        base + rng.below(10) as u32
+    } else {
+        0
+    };
+    let workload = format!("w1-{}-{}-{:?}-worn{}-cap{}", if tag == 1 { "small" } else { "large" }, index, persona, worn, cap0);
     let mut gen = Gen::new(cfg.gen.clone(), persona);
-    let mut st: State<P> = State::with_arena(if cap0 == 0 { Arena::new() } else { Arena::with_capacity(cap0) });
+    let mut st: State<P> = if worn > 0 {
+        cov.bump("histories_started_on_an_arena_with_a_worn_slot");
+        let mut prime_rng = Rng::derive(ctx.seed, 71, index);
+        State::primed_worn(&mut prime_rng, worn, cap0)
+    } else {
+        State::with_arena(if cap0 == 0 { Arena::new() } else { Arena::with_capacity(cap0) })
+    };
     let mut ops: Vec<Op> = Vec::new();
     let mut digest = Digest::default();
     let len = match cfg.size {
@@ -1405,8 +1418,13 @@ pub fn run_deep(prop: &'static str, depth: usize) -> Result<u64, (String, String
 // ------------------------------------------------------------------ replay
 
 /// Re-executes an explicit history with this property's monitors on every step.
-pub fn replay_ops<P: Payload>(ctx: &Ctx, ops: &[Op], cap0: usize, cov: &mut Cov, tok: bool, hook: &mut dyn Hook<P>) -> Option<Violation> {
-    let mut st: State<P> = State::with_arena(if cap0 == 0 { Arena::new() } else { Arena::with_capacity(cap0) });
+pub fn replay_ops<P: Payload>(ctx: &Ctx, ops: &[Op], cap0: usize, worn: (u32, u64), cov: &mut Cov, tok: bool, hook: &mut dyn Hook<P>) -> Option<Violation> {
+    let mut st: State<P> = if worn.0 > 0 {
+        let mut prime_rng = Rng::derive(ctx.seed, 71, worn.1);
+        State::primed_worn(&mut prime_rng, worn.0, cap0)
+    } else {
+        State::with_arena(if cap0 == 0 { Arena::new() } else { Arena::with_capacity(cap0) })
+    };
     let mut rng = Rng::derive(ctx.seed, 9, 9);
     let mut done: Vec<Op> = Vec::new();
     let mut blind = false;
